@@ -770,6 +770,40 @@ pub fn explore_raw(depth: usize, alphabet: &[Tok], cfg: &SysConfig, snap: SnapMo
 }
 
 
+/// Replays the executions behind candidate violations twice (fresh memo, same scratch
+/// directory name) and keeps a candidate only if the same crash point / observation fails
+/// in both replays: the same schedule must fail every time before it is trusted.
+/// Returns (confirmed, unreproduced).
+pub fn confirm<'a>(cands: &[&'a Finding], rerun: &dyn Fn(&Finding) -> Vec<Finding>) -> (Vec<&'a Finding>, Vec<&'a Finding>) {
+    let same = |g: &Finding, f: &Finding| match (&g.crash, &f.crash) {
+        (Some(a), Some(b)) => a.kind == b.kind && a.path == b.path && g.op == f.op && g.life == f.life,
+        (None, None) => g.life == f.life && g.op == f.op,
+        _ => false,
+    };
+    let bad = |g: &Finding| g.violation.is_some() || g.known.is_empty();
+    let mut runs: Vec<(String, Vec<Vec<Finding>>)> = Vec::new();
+    let mut ok = Vec::new();
+    let mut lost = Vec::new();
+    for f in cands {
+        let key = format!("{:?}|{}", f.history, serde_json::to_string(&f.cfg).unwrap_or_default());
+        if !runs.iter().any(|(k, _)| *k == key) {
+            if runs.len() >= 12 {
+                // beyond a dozen distinct executions the remaining candidates are kept unconfirmed
+                ok.push(*f);
+                continue;
+            }
+            runs.push((key.clone(), vec![rerun(f), rerun(f)]));
+        }
+        let rr = &runs.iter().find(|(k, _)| *k == key).unwrap().1;
+        if rr.iter().all(|r| r.iter().any(|g| same(g, f) && if bad(f) { bad(g) } else { g.known == f.known })) {
+            ok.push(*f);
+        } else {
+            lost.push(*f);
+        }
+    }
+    (ok, lost)
+}
+
 // ---------------------------------------------------------------------------
 // the registered check
 // ---------------------------------------------------------------------------
@@ -896,6 +930,14 @@ pub fn check(tier: &str) -> i32 {
     }
     // shortest history first
     violations.sort_by_key(|f| (f.history.len(), f.crash.is_some(), f.op));
+    // trust a failure only if it fails again, twice, in a replay of the same execution
+    let (violations, unreproduced) = confirm(&violations, &|f: &Finding| {
+        let i = work.iter().position(|(c, h)| *h == f.history && serde_json::to_string(c).ok() == serde_json::to_string(&f.cfg).ok()).unwrap_or(0);
+        run("h", i, &f.cfg, &f.history, &Mutex::new(HashSet::new()), &Mutex::new(Stats::default()))
+    });
+    for f in unreproduced.iter().take(5) {
+        eprintln!("UNREPRODUCED (not reported): {:?} life {} op {} crash {:?}: {:?}", f.history, f.life, f.op, f.crash.as_ref().map(|c| (&c.kind, &c.path)), f.violation);
+    }
     let mut reported = BTreeSet::new();
     for f in violations.iter() {
         let key = f.violation.clone().unwrap_or_default().chars().filter(|c| !c.is_ascii_digit()).collect::<String>();
@@ -936,6 +978,7 @@ pub fn check(tier: &str) -> i32 {
             "executed_work_items": done.load(std::sync::atomic::Ordering::SeqCst),
             "work_items": work.len(),
             "determinism_canary_executions": canary.len() * 2,
+            "unreproduced_observations": unreproduced.len(),
         }),
         assumptions: vec![
             "process crash model: every completed system call is kept, user-space memory is lost (no power-loss reordering)".into(),
